@@ -5,8 +5,8 @@ EXTENDS Worker
 MCPool == << [id |-> 1, big |-> FALSE, carries |-> {<<"p1","flag","a">>, <<"p1","GoVersion","go1.21.0">>}],
              [id |-> 1, big |-> TRUE, carries |-> {<<"p1","flag","b">>, <<"p2","flag","a">>, <<"p1","GoVersion","go1.21.5">>}],
              [id |-> 2, big |-> FALSE, carries |-> {<<"p1","flag","a">>, <<"p1","flag","zz">>, <<"p1","GoVersion","go1.22.1">>}] >>
-MCCharts == { [p |-> "p1", c |-> "flag", bk |-> {<<"a","a">>, <<"b","b">>}],
-              [p |-> "p2", c |-> "flag", bk |-> {<<"a","a">>}],
-              [p |-> "p1", c |-> "GoVersion", bk |-> {<<"go1.21.0","go1.21">>, <<"go1.21.5","go1.21">>, <<"go1.22.1","go1.22">>}] }
+MCCharts == { [p |-> "p1", c |-> "flag", bk |-> {<<"a","a",1>>, <<"b","b",2>>}],
+              [p |-> "p2", c |-> "flag", bk |-> {<<"a","a",1>>}],
+              [p |-> "p1", c |-> "GoVersion", bk |-> {<<"go1.21.0","go1.21",1>>, <<"go1.21.5","go1.21",1>>, <<"go1.22.1","go1.22",2>>}] }
 MCObjs == {"o1","o2"}
 ====
